@@ -40,6 +40,10 @@
     value seen.  A poll of [changed()] is also treated as racy when the model does not know which
     value the receiver has marked seen (a receiver deserialized while dirty, until its first
     [borrow_and_update]).
+    An exact poll of [changed()] is answered by the model's own version bookkeeping
+    ([Watch.changed_res], rule T1) as long as every seen-marking of that receiver was an exact step
+    of the model ([vok]); after a racy seen-marking it is answered from the index the receiver is
+    known to have marked seen (in a correct channel a cell's version changes iff its index does).
     [send] in a dirty state with no live receiver handle on the sender's cell is preceded by an
     implicit unstall + barrier on both sides (its result depends on which forwarding tasks are
     still alive).
@@ -55,6 +59,8 @@ Record rstate := mkRS {
   stalled : bool;
   sidx : list (option N);    (* per receiver: index of the value it has marked seen, if known *)
   floor : list N;            (* per cell: lower bound from racy observations since the last barrier *)
+  vok : list bool;           (* per receiver: every seen-marking of this receiver was an exact step of the
+                                model, so the model's own version bookkeeping ([rseen]) applies to it *)
 }.
 
 Definition nth_def {A} (l : list A) (i : nat) (d : A) : A := nth i l d.
@@ -69,14 +75,14 @@ Definition fuel_of (st : state) : nat := 8 * (S (ncell st)) + 64.
 
 Definition do_quiesce (rs : rstate) : rstate * list N :=
   let st' := quiesce (fuel_of (rst rs)) (rst rs) in
-  (mkRS st' false false (sidx rs) (map (fun _ => 0) (floor rs)),
+  (mkRS st' false false (sidx rs) (map (fun _ => 0) (floor rs)) (vok rs),
    if quiescent st' then [] else [95]).
 
 Definition barrier (rs : rstate) : rstate * list N :=
   if stalled rs then (rs, []) else do_quiesce rs.
 
-Definition mark_dirty (rs : rstate) : rstate := mkRS (rst rs) true (stalled rs) (sidx rs) (floor rs).
-Definition with_st (rs : rstate) (st : state) : rstate := mkRS st (dirty rs) (stalled rs) (sidx rs) (floor rs).
+Definition mark_dirty (rs : rstate) : rstate := mkRS (rst rs) true (stalled rs) (sidx rs) (floor rs) (vok rs).
+Definition with_st (rs : rstate) (st : state) : rstate := mkRS st (dirty rs) (stalled rs) (sidx rs) (floor rs) (vok rs).
 
 Definition exact_cell (rs : rstate) (d : nat) : bool := negb (dirty rs) || Nat.eqb d (root (rst rs)).
 
@@ -106,7 +112,11 @@ Definition value_adm (rs : rstate) (d : nat) (i p : N) : bool :=
 Definition note_obs (rs : rstate) (r : nat) (d : nat) (i : N) (seen : bool) : rstate :=
   mkRS (rst rs) (dirty rs) (stalled rs)
        (if seen then set_nth (sidx rs) r (Some i) else sidx rs)
-       (raise_floor (S (ncell (rst rs))) (rst rs) (floor rs) d i).
+       (raise_floor (S (ncell (rst rs))) (rst rs) (floor rs) d i) (vok rs).
+
+(** a seen-marking the model state did not follow *)
+Definition unsync (rs : rstate) (r : nat) : rstate :=
+  mkRS (rst rs) (dirty rs) (stalled rs) (sidx rs) (floor rs) (set_nth (vok rs) r false).
 
 Definition val_out (c : cell) : list N := if cerr c then [0; 0] else [fst (cval c) + 1; snd (cval c)].
 Definition nb (b : bool) : N := if b then 1 else 0.
@@ -124,7 +134,7 @@ Definition observe (rs : rstate) (r : nat) (upd_seen : bool) (a b c : N) : rstat
         (if cerr cl then rs' else note_obs rs' r d (fst (cval cl)) upd_seen, 2 :: val_out cl)
       else
         match a with
-        | 1 => (note_obs rs r d b upd_seen, [1; nb (value_adm rs d b c)])
+        | 1 => (note_obs (if upd_seen then unsync rs r else rs) r d b upd_seen, [1; nb (value_adm rs d b c)])
         | _ => (rs, [1; 0])
         end
   end.
@@ -138,7 +148,11 @@ Definition poll_changed (rs : rstate) (r : nat) (a b c : N) : rstate * list N :=
       let cl := cells (rst rs) d in
       match exact_cell rs d, nth_def (sidx rs) r None with
       | true, Some s =>
-          if negb (s =? fst (cval cl)) then
+          (* the model's own answer (versions, rule T1) where its bookkeeping applies, else by index *)
+          let ok := if nth_def (vok rs) r false
+                    then match changed_res (rst rs) r with ChOk => true | _ => false end
+                    else negb (s =? fst (cval cl)) in
+          if ok then
             let st' := try_step (rst rs) (Observe r) in
             (note_obs (with_st rs st') r d (fst (cval cl)) true, 2 :: 1 :: val_out cl)
           else (rs, [2; if cclosed cl then 2 else 3; 0; 0])
@@ -156,14 +170,14 @@ Definition poll_changed (rs : rstate) (r : nat) (a b c : N) : rstate * list N :=
                    else match so with Some s => lo_of rs d <=? s | None => true end
             | _ => false
             end in
-          let rs' := match a with 1 => note_obs rs r d b true | _ => rs end in
+          let rs' := match a with 1 => note_obs (unsync rs r) r d b true | 4 => unsync rs r | _ => rs end in
           (rs', [1; nb acc])
       end
   end.
 
 (** a new receiver: what it has marked seen *)
-Definition push_sidx (rs : rstate) (st' : state) (s : option N) : rstate :=
-  mkRS st' (dirty rs) (stalled rs) (sidx rs ++ [s]) (floor rs).
+Definition push_sidx (rs : rstate) (st' : state) (s : option N) (v : bool) : rstate :=
+  mkRS st' (dirty rs) (stalled rs) (sidx rs ++ [s]) (floor rs) (vok rs ++ [v]).
 
 Definition enabled (st : state) (a : action) : bool := match step st a with Some _ => true | None => false end.
 
@@ -184,7 +198,10 @@ Fixpoint run_ops (fuel : nat) (rs : rstate) (l : list N) : list N :=
               let cl := cells st' (rcell x) in
               1 :: val_out cl ++
               [match nth_def (sidx rs') r None with
-               | Some s => if negb (s =? fst (cval cl)) then 1 else if cclosed cl then 2 else 3
+               | Some s =>
+                   if nth_def (vok rs') r false
+                   then match changed_res st' r with ChOk => 1 | ChClosed => 2 | ChPending => 3 end
+                   else if negb (s =? fst (cval cl)) then 1 else if cclosed cl then 2 else 3
                | None => 9
                end]
             else [0]) (seq 0 (nrcv st'))
@@ -204,12 +221,12 @@ Fixpoint run_ops (fuel : nat) (rs : rstate) (l : list N) : list N :=
           else 99 :: run_ops f rs r
       | 3 :: r =>
           match sender st with
-          | Some c => run_ops f (push_sidx rs (try_step st Subscribe) (Some (fst (cval (cells st c))))) r
+          | Some c => run_ops f (push_sidx rs (try_step st Subscribe) (Some (fst (cval (cells st c)))) true) r
           | None => 99 :: run_ops f rs r
           end
       | 4 :: q :: r =>
           let q := N.to_nat q in
-          if enabled st (CloneRx q) then run_ops f (push_sidx rs (try_step st (CloneRx q)) (nth_def (sidx rs) q None)) r
+          if enabled st (CloneRx q) then run_ops f (push_sidx rs (try_step st (CloneRx q)) (nth_def (sidx rs) q None) (nth_def (vok rs) q false)) r
           else 99 :: run_ops f rs r
       | 5 :: q :: r =>
           let q := N.to_nat q in
@@ -227,19 +244,19 @@ Fixpoint run_ops (fuel : nat) (rs : rstate) (l : list N) : list N :=
           | Some x =>
               let d := rcell x in
               let s := if exact_cell rs d then Some (fst (cval (cells st d))) else None in
-              let rs' := push_sidx rs (try_step st (TransferRx q)) s in
-              run_ops f (mark_dirty (mkRS (rst rs') (dirty rs') (stalled rs') (sidx rs') (floor rs' ++ [0]))) r
+              let rs' := push_sidx rs (try_step st (TransferRx q)) s (exact_cell rs d) in
+              run_ops f (mark_dirty (mkRS (rst rs') (dirty rs') (stalled rs') (sidx rs') (floor rs' ++ [0]) (vok rs'))) r
           | None => 99 :: run_ops f rs r
           end
       | 10 :: _ :: r =>
           if enabled st TransferTx then
             let rs' := with_st rs (try_step st TransferTx) in
-            run_ops f (mark_dirty (mkRS (rst rs') (dirty rs') (stalled rs') (sidx rs') (floor rs' ++ [0]))) r
+            run_ops f (mark_dirty (mkRS (rst rs') (dirty rs') (stalled rs') (sidx rs') (floor rs' ++ [0]) (vok rs'))) r
           else 99 :: run_ops f rs r
       | 11 :: r => let '(rs', o) := barrier rs in o ++ run_ops f rs' r
       | 12 :: _ :: r => run_ops f (mark_dirty rs) r
-      | 13 :: r => run_ops f (mkRS st true true (sidx rs) (floor rs)) r
-      | 14 :: r => run_ops f (mkRS st true false (sidx rs) (floor rs)) r
+      | 13 :: r => run_ops f (mkRS st true true (sidx rs) (floor rs) (vok rs)) r
+      | 14 :: r => run_ops f (mkRS st true false (sidx rs) (floor rs) (vok rs)) r
       | 15 :: _ :: r => run_ops f (mark_dirty rs) r
       | _ => [98]
       end
@@ -248,7 +265,7 @@ Fixpoint run_ops (fuel : nat) (rs : rstate) (l : list N) : list N :=
 Definition run_watch (inp : list N) : list N :=
   match inp with
   | 0 :: p :: ops =>
-      run_ops (S (length ops)) (mkRS (init p) false false [Some 0] [0]) ops
+      run_ops (S (length ops)) (mkRS (init p) false false [Some 0] [0] [true]) ops
   | 1 :: _ => [96]
   | _ => [98]
   end.
